@@ -182,8 +182,10 @@ def extra(ctx, avh, avm, tier, seed):
     if m:
         ctx.coverage["mixup_scenarios"] = int(m.group(1))
         ctx.coverage["mixup_panics"] = int(m.group(2))
-        ctx.oblige("mixup:check_version_compatibility does not panic after a move / copy that keeps the stored type "
-                   "(regression of C12-panic-check-compat-mixup, %s scenarios through the public API)" % m.group(1),
+        ctx.oblige("mixup:no panic after a move / copy between parents that list the element's name with different types: sort of the "
+                   "attached element / its new parent / the model, serialize, check_references, check_version_compatibility (all "
+                   "versions), duplicate, lenient load of the file's own text into the same model "
+                   "(regression of C12-panic-check-compat-mixup; %s scenarios through the public API)" % m.group(1),
                    int(m.group(2)) == 0 and int(m.group(1)) > 0, out[-600:])
         ctx.coverage["evaluations"] = ctx.coverage.get("evaluations", 0) + int(m.group(1))
     for l in out.split("\n"):
